@@ -58,7 +58,7 @@ def gen_cases(rng, tier):
             continue
         cases.append({'m': m, 'sites8': [list(p) for p in pts], 'labels': labels, 'outer': outer, 'inner': inner,
                       'mr': rng.choice([0, 0, 1, 2, 3, 5]), 'dim': rng.randint(1, 3), 'tseed': rng.randrange(10**6),
-                      'dt': rng.choice([1e-15, 2e-15, 2.5e-15]), 'site_scale': rng.choice([1.0, 1.0, 1.05])})
+                      'dt': rng.choice([1e-15, 2e-15, 2.5e-15]), 'site_scale': rng.choice([1.0, 1.0, 1.05]), 'plots': rng.random() < 0.2})
     return cases
 
 
@@ -97,6 +97,11 @@ def impl(case):
     out['jumps'] = [[int(v) for v in row] for row in d[['start site', 'destination site']].to_numpy()]
     out['n_jumps'] = int(j.n_jumps)
     out['jmat'] = j.matrix().tolist()
+    if case.get('plots'):
+        # figures made in between are views: the bookkeeping must read the same afterwards
+        out['plots_called'] = synth.call_plots(j, ['plot_jumps_3d', 'plot_jumps_vs_distance', 'plot_jumps_vs_time', 'plot_collective_jumps'])
+        out['jmat_after_plots'] = j.matrix().tolist()
+        out['tmat_after_plots'] = tr.matrix().tolist()
     out['_counter'] = sorted([int(a), int(b), int(c)] for (a, b), c in j._counter().items())
     out['counter'] = sorted([a, b, int(c)] for (a, b), c in j.counter().items())
     out['diff'] = float(j.jump_diffusivity(case['dim']))
@@ -184,6 +189,9 @@ def oracle(case, out):
             if jm[i][j] != jc.get((i, j), 0):
                 fs.append(('jmatrix/count', f'Jumps.matrix() entry {(i, j)} = {jm[i][j]}, jumps {jc.get((i, j), 0)}'))
                 break
+    if 'jmat_after_plots' in out and (out['jmat_after_plots'] != jm or out['tmat_after_plots'] != tm):
+        fs.append(('jmatrix/changed-by-plot', f'after {out.get("plots_called")} plotting calls the count matrices read differently: jump matrix sum {sum(map(sum, out["jmat_after_plots"]))} '
+                   f'(before: {sum(map(sum, jm))}, jumps: {out["n_jumps"]})'))
     if sum(map(sum, jm)) != out['n_jumps'] or out['n_jumps'] != len(out['jumps']):
         fs.append(('jmatrix/sum', 'matrix sum differs from the number of jumps'))
     if any(jm[i][i] for i in range(n)):
